@@ -145,6 +145,13 @@ def scenarios(rng: random.Random, tier: str):
         for end in ("eof 0", "rerr 0 hard", "rx 0 " + nodegen.dpr(n(), n(), spell) + " | eof 0", "adv 9 | adv 4"):
             out.append(nodegen.CONFIGS["out"] + " | start ok,fail | rx 0 " + nodegen.cea(2001, spell, 2001, 268435464, auth="4") +
                        f" | tick | {end} | tick | adv 6 | tick")
+    # a persistent peer without addresses (it always connects by itself): after its connection is gone the reconnect passes
+    # have nothing to dial, and the record of the disconnect stays
+    noaddr = (f"NODE host={nodegen.HOST};realm={nodegen.REALM};peer:peer1.x,{nodegen.REALM},1,1,3,0,0,-,-,-,-;"
+              f"peer:peer2.x,{nodegen.REALM},1,0,3,0,0,-,-,-,-;app:4,1,0,b,0,0+1,-")
+    for end in ("eof 0", "rerr 0 hard", "rx 0 " + nodegen.dpr(n(), n()) + " | eof 0"):
+        out.append(noaddr + " | start | acc | rx 0 " + nodegen.cer("peer1.x", "4", n(), n()) + f" | {end} | tick | adv 4 | tick | adv 4 | tick")
+        out.append(noaddr + " | start | acc | rx 0 " + nodegen.cer("peer2.x", "4", n(), n()) + f" | {end} | tick | adv 4 | tick")
     # two connections fail on a write in the same pass of the I/O loop (both close themselves and signal the node)
     out.append(two + " | start | acc | rx 0 " + nodegen.cer("peer1.x", "4+3", n(), n(), extra=",acct=3") + " | acc | rx 1 " +
                nodegen.cer("peer2.x", "4+3", n(), n(), extra=",acct=3") + " | wr 0 hard | wr 1 hard | rxm 0:" +
